@@ -503,6 +503,11 @@ func c11Scripts() []c11Plan {
 	pn.Blocks[2] = []c11Tx{tx("withdraw", 2, "2998000"), {Kind: "stake", V: 2, D: 5, Amount: "5000"},
 		{Kind: "allege", V: 0, Req: "pn", Mal: 2}, {Kind: "vote", V: 0, Req: "pn", Choice: 1}, {Kind: "vote", V: 1, Req: "pn", Choice: 1}, {Kind: "vote", V: 3, Req: "pn", Choice: 1}}
 	ps = append(ps, pn)
+	// the postponed record update of a penalty is refused by the purge-height rule in BeginBlock
+	pb := c11Plan{Name: "postponed_blocked", Genesis: "default", Mat: 2, Blocks: c11Empty(9)}
+	pb.Blocks[1] = []c11Tx{tx("unstake", 2, "2997500")}
+	pb.Blocks[2] = []c11Tx{{Kind: "allege", V: 0, Req: "pb", Mal: 2}, {Kind: "vote", V: 0, Req: "pb", Choice: 1}, {Kind: "vote", V: 1, Req: "pb", Choice: 1}, {Kind: "vote", V: 3, Req: "pb", Choice: 1}}
+	ps = append(ps, pb)
 	// maturity option changed between unstake and maturity: the height fixed at unstake time counts
 	mc := c11Plan{Name: "maturity_change", Genesis: "mature", Mat: 4, Blocks: c11Empty(14)}
 	mc.Blocks[1] = []c11Tx{tx("unstake", 1, "1000")}
